@@ -196,7 +196,22 @@ fn check_d<const D: usize>(c: &Case, ctx: &mut Ctx) -> Result<(), Failure> {
     }
     // (7) value-level confirmation
     let ed = || sut::edge_data::<D>(&g.massive, &p.kin.masses, &p.kin.shifts);
-    if let Ok(base_out) = sut::sample_f64(&s, &p.x[..dim], ed(), None, false, true) {
+    // only where f64 can show the influence: parameters not so spread that a change is absorbed by rounding
+    let well_conditioned = {
+        let reft = g.table_f64();
+        let omega: Vec<f64> = reft.iter().map(|e| e.2).collect();
+        let jr = g.j_f64(&omega);
+        let check_path = |x: &[f64]| crate::oracle::path::simulate(ne, &omega, &jr, x, 1e-12).lnx0.iter().all(|l| l.abs() < 9.0);
+        check_path(&p.x) && c.perturb.iter().all(|&(i, nv)| { let mut x2 = p.x.clone(); if i < x2.len() { x2[i] = nv; } check_path(&x2) })
+    };
+    if !well_conditioned {
+        ctx.label("perturb:skipped(parameters spread over more than e^9)");
+    }
+    if let (true, Ok(base_out)) = (well_conditioned, sut::sample_f64(&s, &p.x[..dim], ed(), None, false, true)) {
+        if !base_out.all_finite() {
+            ctx.label("perturb:skipped(non-finite base result)");
+            return finish(ctx, ne, nl, D);
+        }
         let key = |o: &sut::Out| {
             let mut b = o.bits();
             if let Some(m) = &o.meta {
@@ -219,7 +234,7 @@ fn check_d<const D: usize>(c: &Case, ctx: &mut Ctx) -> Result<(), Failure> {
                     let is_u = i < 2 * ne - 2 && i % 2 == 0;
                     if is_u {
                         ctx.label(if changed { "perturb:u-changed-result" } else { "perturb:u-same-result(same edge or symmetric)" });
-                    } else if !changed {
+                    } else if !changed && o2.all_finite() {
                         fail!("coordinate-without-influence", "changing coordinate {i} from {} to {nv} left every output bit-identical; case {c:?}", p.x[i]);
                     } else {
                         ctx.label("perturb:value-changed-result");
@@ -230,7 +245,10 @@ fn check_d<const D: usize>(c: &Case, ctx: &mut Ctx) -> Result<(), Failure> {
             }
         }
     }
-    if ne >= 3 && ((nl * D) % 2 == 1 || nl >= 2) {
+    finish(ctx, ne, nl, D)
+}
+fn finish(ctx: &mut Ctx, ne: usize, nl: usize, d: usize) -> Result<(), Failure> {
+    if ne >= 3 && ((nl * d) % 2 == 1 || nl >= 2) {
         ctx.nontrivial();
     }
     ctx.count("executions_tracked", 3);
